@@ -63,6 +63,10 @@ func (j *jsonCodec) HandleRead(ctx netty.InboundContext, message netty.Message) 
 	// decode to map
 	var object = make(map[string]interface{})
 	utils.Assert(jsonDecoder.Decode(&object))
+	// the json value null decodes into a map without an error (it sets the map to nil): not an object.
+	if nil == object {
+		utils.Assert(fmt.Errorf("json: cannot decode null into an object"))
+	}
 
 	// the frame must hold exactly one json value: whatever follows it would otherwise be left in
 	// the stream (or lost in the decoder's read-ahead buffer) and desynchronise the next frames.
